@@ -607,3 +607,247 @@ Proof.
 Qed.
 
 End Phase1.
+
+(* ================================================================== *)
+(* Part 5: the evaluation pass (lifted kernel)                          *)
+
+Section Eval.
+Variable f : Z -> Z -> Z.
+Variable cf : cfg.
+Hypothesis f_assoc : forall a b c, f (f a b) c = f a (f b c).
+Hypothesis Hlift : c_lifted cf = true.
+
+Variable st : store.
+Variable L : list leaf.
+Variable vals : list Z.
+Variable k : nat.
+Hypothesis Hvals : leaf_vals st L vals.
+Hypothesis Hcap : length L <= 2 ^ k.
+
+Let live := length L.
+
+Definition sem_at (combs : list (option comb)) (j u : nat) : Prop :=
+  exists c, nth_opt (pos k j u) combs = Some (Some c) /\
+            cb_out c = fold1 f (seg vals (u * 2 ^ j) (Nat.min (2 ^ j) (live - u * 2 ^ j))).
+
+Definition zero_root (combs : list (option comb)) : Prop :=
+  exists c v, nth_opt 0 combs = Some (Some c) /\ nth_opt 0 vals = Some v /\ cb_out c = Some (f v (c_zero cf)).
+
+(* the combine point p holds what the property says it should *)
+Definition good (combs : list (option comb)) (p : nat) : Prop :=
+  forall j u, 1 <= j -> j <= k -> u < 2 ^ (k - j) -> p = pos k j u ->
+    (u * 2 ^ j + 2 ^ (j - 1) < live -> sem_at combs j u) /\
+    (c_has_zero cf = true -> live = 1 -> j = k -> zero_root combs).
+
+Lemma needed_iff j u : 1 <= j -> j <= k -> u < 2 ^ (k - j) ->
+  (needed cf (2 ^ k) live (pos k j u) = true <->
+   (pos k j u = 0 /\ c_has_zero cf = true /\ live = 1) \/ u * 2 ^ j + 2 ^ (j - 1) < live).
+Proof.
+  intros H1 H2 H3. unfold needed.
+  rewrite (pos_left k j u H1 H2), (pos_right k j u H1 H2).
+  assert (Hu0 : 2 * u < 2 ^ (k - (j - 1))).
+  { replace (k - (j - 1)) with (S (k - j)) by lia. rewrite pow2_S. lia. }
+  assert (Hu1 : 2 * u + 1 < 2 ^ (k - (j - 1))).
+  { replace (k - (j - 1)) with (S (k - j)) by lia. rewrite pow2_S. lia. }
+  pose proof (resolve_empty_iff (j - 1) k (2 * u) live ltac:(lia) Hu0) as E0.
+  pose proof (resolve_empty_iff (j - 1) k (2 * u + 1) live ltac:(lia) Hu1) as E1.
+  pose proof (pow2_half j H1) as Hh.
+  assert (Ha0 : 2 * u * 2 ^ (j - 1) = u * 2 ^ j) by (rewrite Hh; lia).
+  assert (Ha1 : (2 * u + 1) * 2 ^ (j - 1) = u * 2 ^ j + 2 ^ (j - 1)) by (rewrite Hh; lia).
+  rewrite Ha0 in E0. rewrite Ha1 in E1.
+  rewrite orb_true_iff, !andb_true_iff, !negb_true_iff, !Nat.eqb_eq.
+  destruct (resolve (2 ^ k) live (pos k (j - 1) (2 * u))) eqn:R0;
+  destruct (resolve (2 ^ k) live (pos k (j - 1) (2 * u + 1))) eqn:R1; simpl;
+  split; intros H; try (destruct H as [H|H]; [left; tauto|]); try tauto.
+  all: try (right; split; reflexivity).
+  all: try (destruct H as [_ H]; discriminate).
+  all: try (destruct H as [H _]; discriminate).
+  all: try (assert (live <= u * 2 ^ j + 2 ^ (j - 1)) by (apply E1; reflexivity); lia).
+  all: try (assert (live <= u * 2 ^ j) by (apply E0; reflexivity); lia).
+  all: try (right; assert (~ live <= u * 2 ^ j + 2 ^ (j - 1)) by (intros Hc; apply E1 in Hc; discriminate); lia).
+Qed.
+
+(* following aliases down to combine points that are already right *)
+Lemma aval_sem combs : forall j u, j <= k -> u < 2 ^ (k - j) -> u * 2 ^ j < live ->
+  (forall j' u', 1 <= j' -> j' <= j -> u' < 2 ^ (k - j') -> u' * 2 ^ j' = u * 2 ^ j ->
+                 u' * 2 ^ j' + 2 ^ (j' - 1) < live -> sem_at combs j' u') ->
+  aval cf st L combs (resolve (2 ^ k) live (pos k j u)) =
+  fold1 f (seg vals (u * 2 ^ j) (Nat.min (2 ^ j) (live - u * 2 ^ j))).
+Proof.
+  intros j u H2 H3 H4 Hsem.
+  destruct (resolve (2 ^ k) live (pos k j u)) as [|i|q] eqn:E.
+  - apply resolve_empty_iff in E; try assumption. lia.
+  - destruct (resolve_leaf_spec j k u live i H2 H3 E) as [-> [A2 A3]].
+    destruct (aval_leaf cf st L combs vals (u * 2 ^ j) Hvals A2) as [v [B1 B2]].
+    rewrite B2, A3. rewrite (seg_one vals _ v B1). reflexivity.
+  - destruct (resolve_node_spec j k u live q H2 H3 E) as [j' [u' [A1 [A2 [A3 [-> [A5 [A6 A7]]]]]]]].
+    destruct (Hsem j' u' A1 A2 A3 A5 A6) as [c [C1 C2]].
+    unfold aval, agg_src. rewrite C1. cbn [src_value]. rewrite C1, C2. rewrite A5.
+    f_equal. f_equal.
+    destruct A7 as [->|A7]; [reflexivity|].
+    pose proof (Nat.pow_le_mono_r 2 j' j ltac:(lia) A2). lia.
+Qed.
+
+Definition ev_combs (e : ev) : list (option comb) := fst (fst e).
+
+Lemma eval_at_absent combs log w r : present combs r = false -> eval_at f cf st L (2 ^ k) (combs, log, w) r = (combs, log, w).
+Proof. unfold present, eval_at. destruct (nth_opt r combs) as [[c|]|]; try reflexivity. discriminate. Qed.
+
+Lemma eval_at_lifted combs log w r c x y :
+  nth_opt r combs = Some (Some c) ->
+  aval cf st L combs (resolve (2 ^ k) live (2 * r + 1)) = Some x ->
+  aval cf st L combs (resolve (2 ^ k) live (2 * r + 2)) = Some y ->
+  eval_at f cf st L (2 ^ k) (combs, log, w) r =
+  (set_nth r (Some (mkComb (cb_l c) (cb_r c) (Some (f x y)) false)) combs, log ++ [(x, y)], r :: w).
+Proof.
+  intros Hc Hx Hy. unfold eval_at. rewrite Hc, Hlift. unfold aval in Hx, Hy. fold live.
+  rewrite Hx, Hy. reflexivity.
+Qed.
+
+Definition wf_presence (combs : list (option comb)) : Prop :=
+  length combs = internals (2 ^ k) /\
+  forall p, p < internals (2 ^ k) -> present combs p = needed cf (2 ^ k) live p.
+
+Lemma present_set_nth combs r c0 c1 p : nth_opt r combs = Some (Some c0) ->
+  present (set_nth r (Some c1) combs) p = present combs p.
+Proof.
+  intros H. unfold present. destruct (Nat.eq_dec r p) as [->|Hne].
+  - rewrite nth_opt_set_nth_same, H; [reflexivity|]. apply nth_opt_length. congruence.
+  - rewrite nth_opt_set_nth_other by assumption. reflexivity.
+Qed.
+
+(* One evaluation, at a present combine point whose deeper neighbours are right, makes it right. *)
+Lemma eval_step combs log w r : wf_presence combs -> r < internals (2 ^ k) -> present combs r = true ->
+  (forall q, r < q -> q < internals (2 ^ k) -> present combs q = true -> good combs q) ->
+  exists c1 x y, nth_opt r combs <> None /\
+    eval_at f cf st L (2 ^ k) (combs, log, w) r = (set_nth r (Some c1) combs, log ++ [(x, y)], r :: w) /\
+    good (set_nth r (Some c1) combs) r.
+Proof.
+  intros [Hlen Hpres] Hr Hp Hdeep.
+  destruct (pos_coords k r Hr) as [j [u [H1 [H2 [H3 ->]]]]].
+  unfold present in Hp. destruct (nth_opt (pos k j u) combs) as [[c|]|] eqn:Ec; try discriminate.
+  pose proof (Hpres _ Hr) as Hn. unfold present in Hn. rewrite Ec in Hn. symmetry in Hn.
+  apply needed_iff in Hn; try assumption.
+  assert (Hu0 : 2 * u < 2 ^ (k - (j - 1))).
+  { replace (k - (j - 1)) with (S (k - j)) by lia. rewrite pow2_S. lia. }
+  assert (Hu1 : 2 * u + 1 < 2 ^ (k - (j - 1))).
+  { replace (k - (j - 1)) with (S (k - j)) by lia. rewrite pow2_S. lia. }
+  pose proof (pow2_half j H1) as Hh. pose proof (pow2_pos (j - 1)) as Hp1.
+  assert (Ha0 : 2 * u * 2 ^ (j - 1) = u * 2 ^ j) by (rewrite Hh; lia).
+  assert (Ha1 : (2 * u + 1) * 2 ^ (j - 1) = u * 2 ^ j + 2 ^ (j - 1)) by (rewrite Hh; lia).
+  (* the sem_at facts available for every needed point strictly deeper than (j, u) *)
+  assert (Hsub : forall j' u', 1 <= j' -> j' <= j - 1 -> u' < 2 ^ (k - j') ->
+                   u' * 2 ^ j' + 2 ^ (j' - 1) < live -> sem_at combs j' u').
+  { intros j' u' B1 B2 B3 B4.
+    assert (Hq : pos k j' u' < internals (2 ^ k)) by (apply pos_internal; lia).
+    assert (Hgt : pos k j u < pos k j' u') by (apply pos_deeper; lia).
+    assert (Hpq : present combs (pos k j' u') = true).
+    { rewrite (Hpres _ Hq). apply (proj2 (needed_iff j' u' B1 ltac:(lia) B3)). right. exact B4. }
+    destruct (Hdeep _ Hgt Hq Hpq j' u' B1 ltac:(lia) B3 eq_refl) as [G _]. apply G. exact B4. }
+  destruct Hn as [[Hz0 [Hz1 Hz2]]|Hn].
+  - (* the root of a singleton with a zero: f value zero *)
+    assert (Hjk : j = k /\ u = 0).
+    { unfold pos in Hz0. pose proof (pow2_pos (k - j)).
+      assert (2 ^ (k - j) = 1) by lia. assert (u = 0) by lia.
+      destruct (Nat.eq_dec j k) as [|Hne]; [tauto|].
+      pose proof (pow2_ge2 (k - j) ltac:(lia)). lia. }
+    destruct Hjk as [-> ->].
+    assert (Hx : exists v, nth_opt 0 vals = Some v /\
+                 aval cf st L combs (resolve (2 ^ k) live (2 * pos k k 0 + 1)) = Some v).
+    { rewrite (pos_left k k 0 H1 H2).
+      rewrite (aval_sem combs (k - 1) (2 * 0)); try lia.
+      - simpl (2 * 0 * _). replace (Nat.min (2 ^ (k - 1)) (live - 0)) with 1 by lia.
+        destruct (aval_leaf cf st L combs vals 0 Hvals ltac:(fold live; lia)) as [v [B1 _]].
+        exists v. split; [exact B1|]. rewrite (seg_one vals 0 v B1). reflexivity.
+      - intros j' u' B1 B2 B3 B4 B5. pose proof (pow2_pos (j' - 1)). lia. }
+    destruct Hx as [v [Hv Hx]].
+    assert (Hy : aval cf st L combs (resolve (2 ^ k) live (2 * pos k k 0 + 2)) = Some (c_zero cf)).
+    { rewrite (pos_right k k 0 H1 H2).
+      assert (E : resolve (2 ^ k) live (pos k (k - 1) (2 * 0 + 1)) = AEmpty).
+      { apply resolve_empty_iff; try lia. }
+      rewrite E. unfold aval, agg_src. rewrite Hz1. cbn [src_value]. rewrite Hz1. reflexivity. }
+    exists (mkComb (cb_l c) (cb_r c) (Some (f v (c_zero cf))) false), v, (c_zero cf).
+    split; [congruence|]. split; [apply eval_at_lifted; assumption|].
+    intros j' u' B1 B2 B3 B4. apply pos_inj in B4; try lia. destruct B4 as [<- <-].
+    split.
+    + intros Hc. pose proof (pow2_pos (k - 1)). lia.
+    + intros _ _ _. exists (mkComb (cb_l c) (cb_r c) (Some (f v (c_zero cf))) false), v.
+      rewrite Hz0 in *. rewrite nth_opt_set_nth_same by (rewrite Hlen; exact Hr). auto.
+  - (* both halves non-empty: f (fold left half) (fold right half) *)
+    assert (Hx : aval cf st L combs (resolve (2 ^ k) live (2 * pos k j u + 1)) =
+                 fold1 f (seg vals (u * 2 ^ j) (2 ^ (j - 1)))).
+    { rewrite (pos_left k j u H1 H2). rewrite (aval_sem combs (j - 1) (2 * u)); try lia.
+      - rewrite Ha0. f_equal. f_equal. lia.
+      - intros j' u' B1 B2 B3 B4 B5. apply Hsub; assumption. }
+    assert (Hy : aval cf st L combs (resolve (2 ^ k) live (2 * pos k j u + 2)) =
+                 fold1 f (seg vals (u * 2 ^ j + 2 ^ (j - 1))
+                               (Nat.min (2 ^ (j - 1)) (live - (u * 2 ^ j + 2 ^ (j - 1)))))).
+    { rewrite (pos_right k j u H1 H2). rewrite (aval_sem combs (j - 1) (2 * u + 1)); try lia.
+      - rewrite Ha1. reflexivity.
+      - intros j' u' B1 B2 B3 B4 B5. apply Hsub; assumption. }
+    set (a := u * 2 ^ j) in *. set (h := 2 ^ (j - 1)) in *.
+    assert (Hlv : length vals = live) by (destruct Hvals as [Hl _]; exact Hl).
+    destruct (fold1 f (seg vals a h)) as [x|] eqn:Ex.
+    2:{ exfalso. unfold fold1 in Ex. destruct (seg vals a h) eqn:Es; [|discriminate].
+        assert (length (seg vals a h) = h).
+        { unfold seg. rewrite firstn_length, skipn_length. lia. }
+        rewrite Es in H. simpl in H. lia. }
+    destruct (fold1 f (seg vals (a + h) (Nat.min h (live - (a + h))))) as [y|] eqn:Ey.
+    2:{ exfalso. unfold fold1 in Ey. destruct (seg vals (a + h) (Nat.min h (live - (a + h)))) eqn:Es; [|discriminate].
+        assert (length (seg vals (a + h) (Nat.min h (live - (a + h)))) = Nat.min h (live - (a + h))).
+        { unfold seg. rewrite firstn_length, skipn_length. lia. }
+        rewrite Es in H. simpl in H. lia. }
+    exists (mkComb (cb_l c) (cb_r c) (Some (f x y)) false), x, y.
+    split; [congruence|]. split; [apply eval_at_lifted; assumption|].
+    intros j' u' B1 B2 B3 B4. apply pos_inj in B4; try lia. destruct B4 as [<- <-].
+    split.
+    + intros _. exists (mkComb (cb_l c) (cb_r c) (Some (f x y)) false).
+      rewrite nth_opt_set_nth_same by (rewrite Hlen; exact Hr). split; [reflexivity|].
+      cbn [cb_out]. fold a.
+      replace (Nat.min (2 ^ j) (live - a)) with (h + Nat.min h (live - (a + h))) by (rewrite Hh; fold h; lia).
+      rewrite seg_split. symmetry. apply fold1_app; assumption.
+    + intros _ Hl1 _. fold h in Hn. lia.
+Qed.
+
+Lemma good_other combs r c1 p : p <> r -> good combs p -> good (set_nth r (Some c1) combs) p.
+Proof.
+  intros Hne G j u H1 H2 H3 E. destruct (G j u H1 H2 H3 E) as [G1 G2]. split.
+  - intros Hn. destruct (G1 Hn) as [c [C1 C2]]. exists c. split; [|exact C2].
+    rewrite nth_opt_set_nth_other by (subst p; lia). exact C1.
+  - intros Z1 Z2 Z3. destruct (G2 Z1 Z2 Z3) as [c [v [C1 [C2 C3]]]]. exists c, v. repeat split; try assumption.
+    assert (p = 0). { subst p j. unfold pos. rewrite Nat.sub_diag in *. simpl in *. lia. }
+    rewrite nth_opt_set_nth_other by lia. exact C1.
+Qed.
+
+(* The descending pass: every present combine point that was not already right is visited after
+   all deeper ones, so afterwards every present combine point is right. *)
+Lemma eval_loop : forall R combs log w, desc_sorted R -> wf_presence combs ->
+  (forall p, p < internals (2 ^ k) -> ~ In p R -> present combs p = true -> good combs p) ->
+  exists combs' log' w', fold_left (eval_at f cf st L (2 ^ k)) R (combs, log, w) = (combs', log', w') /\
+    wf_presence combs' /\
+    (forall p, p < internals (2 ^ k) -> present combs' p = true -> good combs' p).
+Proof.
+  induction R as [|r R IH]; intros combs log w Hs Hwf Hgood.
+  - exists combs, log, w. split; [reflexivity|]. split; [exact Hwf|]. intros p Hp Hpr. apply Hgood; auto.
+  - inversion Hs as [|? ? Hlt Hs']; subst. cbn [fold_left].
+    destruct (present combs r) eqn:Epr.
+    2:{ rewrite eval_at_absent by assumption. apply IH; try assumption.
+        intros p Hp Hnin Hpp. apply Hgood; try assumption. intros [->|Hin]; [congruence|contradiction]. }
+    destruct (Nat.lt_ge_cases r (internals (2 ^ k))) as [Hr|Hr].
+    2:{ exfalso. destruct Hwf as [Hlen _]. unfold present in Epr.
+        assert (nth_opt r combs = None) by (apply nth_opt_none; lia). rewrite H in Epr. discriminate. }
+    destruct (eval_step combs log w r Hwf Hr Epr) as [c1 [x [y [Hnn [Hev Hg]]]]].
+    { intros q Hq1 Hq2 Hq3. apply Hgood; try assumption.
+      intros [->|Hin]; [lia|]. specialize (Hlt q Hin). lia. }
+    rewrite Hev.
+    destruct (nth_opt r combs) as [[c0|]|] eqn:Ec; try (unfold present in Epr; rewrite Ec in Epr; discriminate).
+    apply IH; try assumption.
+    + destruct Hwf as [Hlen Hpres]. split; [rewrite set_nth_length; exact Hlen|].
+      intros p Hp. rewrite (present_set_nth combs r c0 c1 p Ec). apply Hpres. exact Hp.
+    + intros p Hp Hnin Hpp. destruct (Nat.eq_dec p r) as [->|Hne]; [exact Hg|].
+      apply good_other; [exact Hne|]. apply Hgood; try assumption.
+      * intros [->|Hin]; [congruence|contradiction].
+      * rewrite <- (present_set_nth combs r c0 c1 p Ec). exact Hpp.
+Qed.
+
+End Eval.
